@@ -613,6 +613,37 @@ pub proof fn lemma_message_canonical(m: Message) ensures Message::wire(m) == m.e
         _ => {}
     }
 }
+/// C15, first sentence ("every message the node can construct encodes within the 64 KiB frame limit"): the limits the
+/// node's constructors respect (BoundedVec bounds, the three filter sizes, Ping::MAX_PING_ZEROES / MAX_PONG_ZEROES)
+pub open spec fn constructible(m: Message) -> bool {
+    match m {
+        Message::Subscribe(s) => s.filter.0.bytes@.len() <= 16384,
+        Message::Announcement(a) => match a.message {
+            AnnouncementMessage::Inventory(x) => x.inventory.v@.len() <= INVENTORY_LIMIT,
+            AnnouncementMessage::Refs(x) => x.refs.v@.len() <= REF_REMOTE_LIMIT,
+            // NOT decided here (node announcement codec is outside the unit): alias <= 32, <= 16 addresses, agent <= 64
+            AnnouncementMessage::Node(x) => node_ann_bytes(x).len() <= 65535 - 98,
+        },
+        Message::Info(_) => true,
+        Message::Ping(p) => p.zeroes.0 <= 65535 - 6,
+        Message::Pong { zeroes } => zeroes.0 <= 65535 - 4,
+    }
+}
+pub proof fn lemma_flat_len_rid(s: Seq<RepoId>) ensures flat_enc(s).len() == 22 * s.len() decreases s.len()
+{ if s.len() > 0 { lemma_flat_len_rid(s.drop_last()); } }
+pub proof fn lemma_flat_len_refs_at(s: Seq<RefsAt>) ensures flat_enc(s).len() == 54 * s.len() decreases s.len()
+{ if s.len() > 0 { lemma_flat_len_refs_at(s.drop_last()); } }
+pub proof fn lemma_message_fits(m: Message) requires constructible(m) ensures m.enc().len() <= 65535
+{
+    match m {
+        Message::Announcement(a) => match a.message {
+            AnnouncementMessage::Inventory(x) => { lemma_flat_len_rid(x.inventory.v@); assert(22 * x.inventory.v@.len() <= 22 * 2973) by (nonlinear_arith) requires x.inventory.v@.len() <= 2973; }
+            AnnouncementMessage::Refs(x) => { lemma_flat_len_refs_at(x.refs.v@); assert(54 * x.refs.v@.len() <= 54 * 1024) by (nonlinear_arith) requires x.refs.v@.len() <= 1024; }
+            _ => {}
+        },
+        _ => {}
+    }
+}
 //@extract crates/radicle-node/src/wire/message.rs
 //@  item enum MessageType
 //@    derive Debug, Clone, Copy, PartialEq, Eq
